@@ -23,6 +23,7 @@ import (
 	"strconv"
 	"strings"
 	"sync"
+	"syscall"
 	"time"
 
 	"github.com/parquet-go/parquet-go"
@@ -517,7 +518,7 @@ func RunC15Traces(ctx *core.Ctx) {
 	procsList := []int{1, 2, 3, 4, 8, 16}
 	jitters := []int{0, 60, 300, 800}
 	sessions := ctx.Scale(300, 4000)
-	deadline := time.Now().Add(time.Duration(ctx.Scale(40, 400)) * time.Second)
+	deadline := time.Now().Add(min(time.Duration(ctx.Scale(40, 400))*time.Second, c15Remaining(ctx)))
 	for s := 0; s < sessions && time.Now().Before(deadline); s++ {
 		procs := procsList[s%len(procsList)]
 		jitter := jitters[(s/len(procsList))%len(jitters)]
@@ -608,12 +609,33 @@ func c15Anchors(ctx *core.Ctx) {
 		{"schema.go", "func schemaOf(", []string{"cachedSchemas.Load(model)", "NewSchema(model.Name()", "cachedSchemas.LoadOrStore(model, schema)", "schema = actual.(*Schema)"}, nil},
 		{"schema.go", "func (c *cacheMap[K, V]) load(", []string{"oldMap, _ := c.value.Load().(map[K]V)", "newMap := make(map[K]V, len(oldMap)+1)", "maps.Copy(newMap, oldMap)", "newMap[k] = value", "c.value.Store(newMap)"}, map[string]int{"oldMap[k] =": 0}},
 		{"column_buffer_reflect.go", "func writeValueFuncOfGroup(", []string{"structFieldsCache.Load().(map[reflect.Type]map[string][]int)", "cachedFieldsBefore := cachedFields", "cachedFields = make(map[reflect.Type]map[string][]int, len(cachedFieldsBefore)+1)", "maps.Copy(cachedFields, cachedFieldsBefore)", "structFieldsCache.Store(cachedFields)"}, nil},
+		// the row group writer protocol (PqModel.RowGroupProto): where awaitOrdinal / rowGroupOrdinal are written and read
+		{"writer.go", "func newConcurrentRowGroupWriter(", []string{"if w.encryption != nil {", "c.awaitOrdinal = true"}, map[string]int{"awaitOrdinal": 1}},
+		{"writer.go", "func (c *ColumnWriter) Flush()", []string{"if c.columnBuffer == nil || c.awaitOrdinal {", "return nil", "if c.columnBuffer.Len() > 0 {"}, nil},
+		{"writer.go", "func (w *writer) flush()", []string{"w.writeRowGroup(w.currentRowGroup, nil, nil)"}, nil},
+		{"writer.go", "func (w *writer) writeRowGroup(", []string{"numRows := rg.columns[0].totalRowCount()", "if numRows == 0 {", "return 0, nil", "rowGroupIndex := len(w.rowGroups)", "defer func() {", "rg.reset()", "nextOrdinal := int16(len(w.rowGroups))", "c.rowGroupOrdinal = nextOrdinal", "c.awaitOrdinal = rg != w.currentRowGroup", "if rg != w.currentRowGroup {", "c.rowGroupOrdinal = nextOrdinal", "}()", "c.rowGroupOrdinal = int16(rowGroupIndex)", "c.awaitOrdinal = false", "c.Flush()"},
+			map[string]int{"awaitOrdinal": 2}},
+		// the row reader's release paths (PoolProto.rowReaderProg): every path that lets go of the page goes
+		// through clear(), which honours detach; the detached values buffer is never unreferenced
+		{"row_group.go", "func newRowGroupRows(", []string{"case ByteArray, FixedLenByteArray:", "r.columns[i].reader.detach = true"}, nil},
+		{"column_chunk.go", "func (r *columnChunkValueReader) clear()", []string{"if r.page != nil {", "if r.detach {", "releaseAndDetachValues(r.page)", "} else {", "Release(r.page)", "r.page = nil", "r.values = nil"}, nil},
+		{"column_chunk.go", "func (r *columnChunkValueReader) Reset()", []string{"r.clear()"}, map[string]int{"Release(": 0}},
+		{"column_chunk.go", "func (r *columnChunkValueReader) Close()", []string{"r.pages.Close()", "r.clear()"}, map[string]int{"Release(": 0}},
+		{"column_chunk.go", "func (r *columnChunkValueReader) ReadValues(", []string{"r.page = p", "r.values = p.Values()", "r.values.ReadValues(values)", "r.clear()"}, map[string]int{"Release(": 0}},
+		{"column_chunk.go", "func (r *columnChunkValueReader) SeekToRow(", []string{"r.pages.SeekToRow(rowIndex)", "r.clear()"}, map[string]int{"Release(": 0}},
+		{"buffer.go", "func (p *bufferedPage) ReleaseAndDetachValues()", []string{"Release(p.Page)", "bufferUnref(p.offsets)", "bufferUnref(p.definitionLevels)", "bufferUnref(p.repetitionLevels)"}, map[string]int{"bufferUnref(p.values)": 0}},
 		{"writer.go", "func (rg *ConcurrentRowGroupWriter) Commit()", []string{"rg.writer.flush()", "return rg.writer.writeRowGroup(rg, nil, nil)"}, nil},
 		{"writer.go", "func (w *writer) writeRowGroup(", []string{"rowGroupIndex := len(w.rowGroups)", "rg.reset()", "fileOffset := w.writer.offset", "dataPageOffset := w.writer.offset", "c.offsetIndex.PageLocations[j].Offset += dataPageOffset", "io.Copy(&w.writer, c.pageBuffer)"}, nil},
 	}
 	poolNote := func(file string) string {
 		if file == "file.go" || file == "column_buffer_reflect.go" {
 			return " — registry protocol: Props.C15.registry_linearizable needs every map access under the lock; Props.C15.registry_fast_path_conflict proves that an unlocked lookup admits a map read concurrent with a map write"
+		}
+		if file == "column_chunk.go" || file == "row_group.go" || file == "buffer.go" {
+			return " — row reader release paths: Props.C15.rowreader_pool_exclusive needs every path that lets go of a page of a byte-array column to detach its values buffer instead of putting it back; Props.C15.rowreader_close_slip_not_exclusive proves that a put on one of these paths lets another goroutine obtain a buffer the caller's rows still point into"
+		}
+		if file == "writer.go" {
+			return " — row group writer protocol: Props.C15.rowgroups_serial_readable is proved for the mirror with awaitOrdinal restored after Commit; Props.C15.rowgroups_slip_unreadable proves that without it a reused row group writer seals pages with a stale ordinal"
 		}
 		if file == "compress/compress.go" || file == "schema.go" || file == "internal/memory/pool.go" {
 			return " — pool protocol: Props.C15.pool_exclusive needs the put to be the owner's last action on the object; for a put before the last use Props.C15.pool_slip_encode_not_exclusive / pool_slip_reconstruct_not_exclusive prove that two goroutines may touch the same object"
@@ -791,9 +813,12 @@ func c15Session(ctx *core.Ctx, d interface {
 		wg.Wait()
 		close(done)
 	}()
-	select {
-	case <-done:
-	case <-time.After(60 * time.Second):
+	// No verdict of this sub-check depends on how fast the machine is: a session that has not
+	// finished is a deadlock only when every goroutine taking part in it is parked on a channel or a
+	// lock (a state nothing but another of these goroutines could end); as long as one of them is
+	// runnable, running or sleeping the session is merely slow and we keep waiting. A session still
+	// unfinished after the (generous) cap is reported as an observation and ends the sub-check.
+	if verdict, dump := c15Await(done, max(3*time.Minute, c15Remaining(ctx)), c15SessionGoroutine); verdict != "done" {
 		logs := parquet.VerifAsyncTraceStop()
 		var detail []any
 		for i, in := range insts {
@@ -803,8 +828,12 @@ func c15Session(ctx *core.Ctx, d interface {
 			}
 			detail = append(detail, map[string]any{"kind": in.kind, "layout": in.layout.tokens(), "ops": c15OpsText(in.ops), "events": strings.Join(ev, ",")})
 		}
-		ctx.Fail("L1", "async-deadlock", "an asyncPages history did not finish within 60 s (deadlock or livelock)",
-			map[string]any{"gomaxprocs": procs, "jitter": jitter, "session": session, "instances": detail})
+		d := map[string]any{"gomaxprocs": procs, "jitter": jitter, "session": session, "instances": detail, "goroutines": dump}
+		if verdict == "deadlock" {
+			ctx.Fail("L1", "async-deadlock", "an asyncPages history cannot finish: every goroutine of the session (consumers and readPages producers) is blocked on a channel or lock operation", d)
+		} else {
+			ctx.Observe("async-session-unfinished", "a recording session was still making progress when the harness gave up waiting (slow machine); no verdict is derived from it", d)
+		}
 		return false
 	}
 	logs := parquet.VerifAsyncTraceStop()
@@ -993,7 +1022,7 @@ func c15GoEnv() []string {
 }
 
 // c15BuildRace builds cmd/pqrace with the race detector against the same tree as this binary.
-func c15BuildRace() (string, string, error) {
+func c15BuildRace(limit time.Duration) (string, string, error) {
 	root, err := os.Getwd()
 	if err != nil {
 		return "", "", err
@@ -1004,12 +1033,15 @@ func c15BuildRace() (string, string, error) {
 		return "", "", fmt.Errorf("harness module file not found (%s): run through ./check", modfile)
 	}
 	bin := filepath.Join(root, ".build", "pqrace")
-	c, cancel := context.WithTimeout(context.Background(), 8*time.Minute)
+	c, cancel := context.WithTimeout(context.Background(), min(15*time.Minute, limit))
 	defer cancel()
 	cmd := exec.CommandContext(c, "go", "build", "-race", "-modfile", modfile, "-tags", "verif", "-o", bin, "./cmd/pqrace")
 	cmd.Dir = harness
 	cmd.Env = c15GoEnv()
 	out, err := cmd.CombinedOutput()
+	if c.Err() == context.DeadlineExceeded {
+		err = context.DeadlineExceeded
+	}
 	return bin, string(out), err
 }
 
@@ -1022,6 +1054,11 @@ func RunC15Scenarios(ctx *core.Ctx) {
 			continue
 		}
 		for s := 0; s < seeds; s++ {
+			if c15Remaining(ctx) < 0 {
+				ctx.Hist("skipped_for_time", "scenario "+sc.Name)
+				ctx.Observe("scenarios-skipped-for-time", "the time budget of the harness was used up (slow machine): some in-process scenario runs were skipped", nil)
+				break
+			}
 			seed := base + int64(s)
 			a, b, err := func() (a, b string, err error) {
 				defer func() {
@@ -1034,20 +1071,31 @@ func RunC15Scenarios(ctx *core.Ctx) {
 			ctx.Case("scenario "+sc.Name+" "+fmt.Sprint(seed), true)
 			ctx.Hist("scenario", sc.Name)
 			if err != nil {
-				ctx.Fail("L1", "scenario-differs-from-serial "+sc.Name, sc.Doc+": "+err.Error(),
+				ctx.Fail("L1", c15ScenarioKey(sc.Name, err.Error()), sc.Doc+": "+err.Error(),
 					map[string]any{"scenario": sc.Name, "seed": seed, "serial": a, "concurrent": b,
 						"replay": fmt.Sprintf(".build/pqrace -scenario %s -seed %d", sc.Name, seed)})
 			}
 		}
 	}
 	// ---- the same scenarios in a -race build, as subprocesses
-	bin, out, err := c15BuildRace()
+	if c15Remaining(ctx) < 2*time.Minute {
+		ctx.Hist("race_build", "skipped-for-time")
+		ctx.Observe("race-build-timeout", "no time left for the -race build (slow machine): the scenarios ran without the race detector only", nil)
+		return
+	}
+	bin, out, err := c15BuildRace(c15Remaining(ctx) - time.Minute)
+	if errors.Is(err, context.DeadlineExceeded) {
+		// a slow machine is not a finding: the race half of the sub-check did not run
+		ctx.Hist("race_build", "timeout")
+		ctx.Observe("race-build-timeout", "go build -race of cmd/pqrace did not finish in time (slow machine): the scenarios ran without the race detector only", map[string]any{"output": out})
+		return
+	}
 	if err != nil {
 		ctx.Fail("L2", "race-build-failed", "go build -race of cmd/pqrace failed: "+err.Error(), map[string]any{"output": out})
 		return
 	}
 	ctx.Hist("race_build", "ok")
-	timeout := time.Duration(ctx.Scale(150, 540)) * time.Second
+	timeout := time.Duration(ctx.Scale(420, 900)) * time.Second // expiry is never a verdict (see c15RaceRun)
 	var wg sync.WaitGroup
 	sem := make(chan struct{}, max(2, runtime.NumCPU()/4))
 	for _, sc := range C15Scenarios {
@@ -1057,7 +1105,13 @@ func RunC15Scenarios(ctx *core.Ctx) {
 				defer wg.Done()
 				sem <- struct{}{}
 				defer func() { <-sem }()
-				c15RaceRun(ctx, bin, name, doc, base, seeds, procs, timeout)
+				left := c15Remaining(ctx)
+				if left < 30*time.Second {
+					ctx.Hist("skipped_for_time", "race "+name)
+					ctx.Observe("race-run-skipped-for-time", "the time budget of the harness was used up (slow machine): some -race scenario runs were not started", nil)
+					return
+				}
+				c15RaceRun(ctx, bin, name, doc, base, seeds, procs, min(timeout, left))
 			}(sc.Name, sc.Doc, procs)
 		}
 	}
@@ -1065,12 +1119,31 @@ func RunC15Scenarios(ctx *core.Ctx) {
 }
 
 func c15RaceRun(ctx *core.Ctx, bin, name, doc string, seed int64, n, procs int, timeout time.Duration) {
-	c, cancel := context.WithTimeout(context.Background(), timeout)
-	defer cancel()
-	cmd := exec.CommandContext(c, bin, "-scenario", name, "-seed", fmt.Sprint(seed), "-n", fmt.Sprint(n), "-procs", fmt.Sprint(procs))
-	cmd.Env = append(os.Environ(), "GORACE=halt_on_error=1")
-	out, err := cmd.CombinedOutput()
-	text := string(out)
+	cmd := exec.Command(bin, "-scenario", name, "-seed", fmt.Sprint(seed), "-n", fmt.Sprint(n), "-procs", fmt.Sprint(procs))
+	cmd.Env = append(os.Environ(), "GORACE=halt_on_error=1", "GOTRACEBACK=all")
+	var outBuf c15SyncBuffer
+	cmd.Stdout, cmd.Stderr = &outBuf, &outBuf
+	err := cmd.Start()
+	timedOut := false
+	if err == nil {
+		exited := make(chan error, 1)
+		go func() { exited <- cmd.Wait() }()
+		select {
+		case err = <-exited:
+		case <-time.After(timeout):
+			// not finished: ask the process for its goroutines (SIGQUIT makes the Go runtime print
+			// every goroutine with its state and exit); the dump decides between "deadlock" and "slow"
+			timedOut = true
+			cmd.Process.Signal(syscall.SIGQUIT)
+			select {
+			case err = <-exited:
+			case <-time.After(2 * time.Minute):
+				cmd.Process.Kill()
+				err = <-exited
+			}
+		}
+	}
+	text := outBuf.String()
 	lastSeed := seed
 	for _, line := range strings.Split(text, "\n") {
 		if strings.HasPrefix(line, "RUN ") {
@@ -1083,21 +1156,176 @@ func c15RaceRun(ctx *core.Ctx, bin, name, doc string, seed int64, n, procs int, 
 	}
 	ctx.HistN("race_runs", name, int64(strings.Count(text, "OK scenario=")))
 	tail := text
-	if len(tail) > 6000 {
-		tail = tail[:3000] + "\n...\n" + tail[len(tail)-3000:]
+	if len(tail) > 9000 {
+		tail = tail[:3000] + "\n...\n" + tail[len(tail)-6000:]
 	}
 	detail := map[string]any{"scenario": name, "seed": lastSeed, "gomaxprocs": procs, "output": tail,
 		"replay": fmt.Sprintf("GORACE=halt_on_error=1 .build/pqrace -scenario %s -seed %d -procs %d", name, lastSeed, procs)}
 	switch {
 	case strings.Contains(text, "WARNING: DATA RACE"):
 		ctx.Fail("L1", "data-race "+name, doc+": the race detector reports a data race", detail)
-	case c.Err() == context.DeadlineExceeded:
-		ctx.Fail("L1", "deadlock "+name, doc+": the scenario did not finish (timeout)", detail)
+	case strings.Contains(text, "all goroutines are asleep - deadlock!"):
+		// the Go runtime's own detector: no goroutine of the process can run any more
+		ctx.Fail("L1", "deadlock "+name, doc+": deadlock (the Go runtime found every goroutine blocked)", detail)
+	case timedOut:
+		// a verdict needs a state that no amount of waiting changes: every goroutine of the process
+		// parked on a channel or lock. Anything else is a slow machine.
+		if i := strings.Index(text, "SIGQUIT: quit"); i >= 0 {
+			// the SIGQUIT traceback lists the runtime's own goroutines too (GC workers, ...): the
+			// scenario's goroutines are those with frames of the harness or the library
+			user := func(stack string) bool {
+				return strings.Contains(stack, "main.main") || strings.Contains(stack, "verifharness/props.") || strings.Contains(stack, "parquet-go.")
+			}
+			if stuck, states := c15AllBlocked(text[i:], user); stuck {
+				detail["goroutine_states"] = states
+				ctx.Fail("L1", "deadlock "+name, doc+": the scenario cannot finish: every goroutine of the process is blocked on a channel or lock operation", detail)
+				return
+			}
+		}
+		ctx.Hist("race_run_unfinished", name)
+		ctx.Observe("race-run-unfinished "+name, "the -race subprocess was still running when the harness gave up waiting (slow machine); no verdict is derived from it", detail)
 	case strings.Contains(text, "MISMATCH "):
-		ctx.Fail("L1", "scenario-differs-from-serial "+name, doc+": concurrent output differs from the serial output (race build)", detail)
+		ctx.Fail("L1", c15ScenarioKey(name, text[strings.Index(text, "MISMATCH "):]), doc+": the concurrent output differs from the serial output, or from the result the input determines (race build)", detail)
 	case strings.Contains(text, "panic:") || strings.Contains(text, "fatal error:"):
 		ctx.Fail("L1", "panic "+name, doc+": panic", detail)
 	case err != nil:
 		ctx.Fail("L1", "scenario-crash "+name, doc+": the scenario process failed: "+err.Error(), detail)
+	}
+}
+
+// c15SyncBuffer collects the output of a subprocess (written by the exec package's copier).
+type c15SyncBuffer struct {
+	mu sync.Mutex
+	b  bytes.Buffer
+}
+
+func (b *c15SyncBuffer) Write(p []byte) (int, error) {
+	b.mu.Lock()
+	defer b.mu.Unlock()
+	return b.b.Write(p)
+}
+
+func (b *c15SyncBuffer) String() string {
+	b.mu.Lock()
+	defer b.mu.Unlock()
+	return b.b.String()
+}
+
+// ---------------------------------------------------------------- time budget (coverage only)
+
+// c15Start / c15Remaining: the whole C15 harness run has to end before ./check gives up on it
+// (props/C15.json timeout_s). Work that has not been started when the soft budget is used up is
+// skipped and reported as an observation; this reduces coverage on a slow machine, it never turns
+// into a failure.
+var c15Start = time.Now()
+
+func c15Remaining(ctx *core.Ctx) time.Duration {
+	return time.Duration(ctx.Scale(800, 1250))*time.Second - time.Since(c15Start)
+}
+
+// ---------------------------------------------------------------- deadlock vs slowness
+
+// c15BlockedStates are the goroutine wait reasons that only another goroutine's channel or lock
+// operation ends. Everything else (running, runnable, syscall, sleep, IO wait, GC ...) is a
+// goroutine that makes progress by itself once it gets CPU time.
+var c15BlockedStates = map[string]bool{
+	"chan receive": true, "chan send": true, "select": true, "select (no cases)": true,
+	"chan receive (nil chan)": true, "chan send (nil chan)": true,
+	"semacquire": true, "sync.Mutex.Lock": true, "sync.RWMutex.RLock": true, "sync.RWMutex.Lock": true,
+	"sync.Cond.Wait": true, "sync.WaitGroup.Wait": true,
+}
+
+// c15AllBlocked parses a goroutine dump (runtime.Stack(all) or the SIGQUIT traceback) and reports
+// whether every goroutine selected by involved (given its stack text) is in a blocked state, and
+// there is at least one. states lists "id:state" of the selected goroutines, sorted by appearance.
+func c15AllBlocked(dump string, involved func(stack string) bool) (bool, string) {
+	var states []string
+	all := true
+	for _, block := range strings.Split(dump, "\n\n") {
+		block = strings.TrimSpace(block)
+		if !strings.HasPrefix(block, "goroutine ") || strings.HasPrefix(block, "goroutine 0 ") { // 0 = scheduler stack of a thread
+			continue
+		}
+		head, _, _ := strings.Cut(block, "\n")
+		open, close := strings.Index(head, "["), strings.LastIndex(head, "]")
+		if open < 0 || close < open {
+			continue
+		}
+		if !involved(block) {
+			continue
+		}
+		state, _, _ := strings.Cut(head[open+1:close], ",")
+		state = strings.TrimSuffix(strings.TrimSpace(state), " (scan)")
+		states = append(states, strings.TrimSpace(strings.TrimPrefix(head[:open], "goroutine "))+":"+state)
+		if !c15BlockedStates[state] {
+			all = false
+		}
+	}
+	return all && len(states) > 0, strings.Join(states, " ")
+}
+
+// c15SessionGoroutine selects the goroutines of a trace session: the consumers (c15Run, c15RunRows
+// and the library frames under them), the readPages producers, and the session's coordinator; not
+// the goroutine taking the dump.
+func c15SessionGoroutine(stack string) bool {
+	if strings.Contains(stack, "runtime.Stack(") || strings.Contains(stack, "props.c15Await") {
+		return false
+	}
+	return strings.Contains(stack, "parquet-go.") || strings.Contains(stack, "props.c15Run") || strings.Contains(stack, "props.c15Session")
+}
+
+// c15Await waits for done. It returns "done"; or "deadlock" with the goroutine dump once three
+// consecutive dumps, taken seconds apart, show the same selected goroutines all blocked (which, the
+// selection being closed under "who could wake whom", is a state that lasts forever whatever the
+// speed of the machine); or "unfinished" when the cap expires while some goroutine can still run.
+func c15Await(done <-chan struct{}, limit time.Duration, involved func(string) bool) (string, string) {
+	start := time.Now()
+	prev, same := "", 0
+	buf := make([]byte, 1<<20)
+	for {
+		wait := 5 * time.Second
+		if same > 0 {
+			wait = 2 * time.Second
+		}
+		select {
+		case <-done:
+			return "done", ""
+		case <-time.After(wait):
+		}
+		for {
+			n := runtime.Stack(buf, true)
+			if n < len(buf) {
+				buf = buf[:n]
+				break
+			}
+			buf = make([]byte, 2*len(buf))
+		}
+		dump := string(buf)
+		buf = buf[:cap(buf)]
+		stuck, states := c15AllBlocked(dump, involved)
+		if stuck && states == prev {
+			same++
+		} else if stuck {
+			prev, same = states, 1
+		} else {
+			prev, same = "", 0
+		}
+		if same >= 3 {
+			select {
+			case <-done:
+				return "done", ""
+			default:
+			}
+			if len(dump) > 60000 {
+				dump = dump[:60000]
+			}
+			return "deadlock", dump
+		}
+		if time.Since(start) > limit {
+			if len(dump) > 60000 {
+				dump = dump[:60000]
+			}
+			return "unfinished", dump
+		}
 	}
 }
